@@ -492,6 +492,16 @@ def mul_right_literals(e, inside=False, acc=None):
     return acc
 
 
+def renumber(e, counter=None):
+    """copy of e with its literals numbered 0, 1, 2 ... in source order"""
+    if counter is None:
+        counter = [0]
+    if e[0] == "lit":
+        counter[0] += 1
+        return ["lit", counter[0] - 1, e[2]]
+    return [e[0]] + [renumber(x, counter) if isinstance(x, (list, tuple)) else x for x in e[1:]]
+
+
 def render(e, littext):
     """fully parenthesised C text; littext(index, suffix) -> literal token text"""
     k = e[0]
